@@ -6,7 +6,8 @@
      f_cv_periodic     homogeneous and all components periodic with the same period (period := that period)
    Afterwards the script interface changes the parameters of components that are in use:
      cv colvar <v> modifycvcs {...}   colvar::update_cvc_config -> cvc::init on the live component: componentCoeff,
-                                      componentExp are re-read; NONE of the three flags above is refreshed
+                                      componentExp are re-read; f_cv_periodic and the period are recomputed
+                                      (update_periodicity, since repair 21b0745b), linear and homogeneous are NOT
      cv colvar <v> cvcflags {...}     colvar::set_cvc_flags / update_cvc_flags: components switched off and on
    collect_cvc_values() and communicate_forces() read coefficient, exponent and active flag of every component LIVE;
    the restraint metric (colvar::dist2, harmonicWalls' closest-wall rule) reads the periodic flag and the period,
@@ -74,10 +75,14 @@ Section Superpos.
   (* the flags computed by init are copied, never recomputed *)
   Definition with_comps (st : vstate) (cs : list scvc) : vstate :=
     mkVstate (vs_width st) cs (vs_linear st) (vs_homog st) (vs_periodic st) (vs_period st).
+  (* modifycvcs: colvar::update_cvc_config ends with update_periodicity() (repair 21b0745b of /repo main): the periodic
+     flag and the period are recomputed from ALL live components by the rule of init; linear and homogeneous are not *)
+  Definition with_comps_refresh (st : vstate) (cs : list scvc) : vstate :=
+    mkVstate (vs_width st) cs (vs_linear st) (vs_homog st) (init_periodic cs) (init_period cs).
   Definition apply_event (e : event) (sts : list vstate) : list vstate :=
     match e with
     | EvModify v i coeff exp =>
-        update_nth v (fun st => with_comps st (update_nth i (modify_comp coeff exp) (vs_comps st))) sts
+        update_nth v (fun st => with_comps_refresh st (update_nth i (modify_comp coeff exp) (vs_comps st))) sts
     | EvFlags v flags =>
         update_nth v (fun st => if Nat.eqb (length flags) (length (vs_comps st)) && existsb (fun b => b) flags
                                 then with_comps st (set_flags flags (vs_comps st)) else st) sts
